@@ -29,7 +29,12 @@ RULES["C16"] = (
     "placements; 2-D sets embedded exactly in an axis plane of 3-D (class planar3, boxes only); all subsets of the 2x2x2 cube "
     "corners, of the 3x3 planar grid and of that grid embedded in two axis planes are enumerated; sub-check 'sequence' runs all "
     "twelve hull / bounding queries on ONE PointCloud / Trimesh in a drawn permutation and requires every answer to satisfy the "
-    "fresh-object predicates, the input arrays to stay byte-identical and every earlier (cached) answer to stay unchanged. Oracles: own face-plane "
+    "fresh-object predicates, the input arrays to stay byte-identical and every earlier (cached) answer to stay unchanged; "
+    "sub-check 'options' draws every optional argument (oriented_bounds / apply_obb angle_digits, ordered, normal; minimum_cylinder "
+    "sample_count, angle_tol; convex_hull / hull_points / oriented_bounds_2D qhull_options as str, QhullOptions, None) and applies "
+    "the default-call predicates plus 'one box axis along normal'; sub-check 'dtypes' hands an exactly representable integer point "
+    "set (magnitudes small / around sqrt(dtype max) / the whole dtype range) over as int8..int64, uint8..uint64, float32, "
+    "read-only / Fortran / strided float64 and nested lists, applies the float64 predicates and requires the argument untouched. Oracles: own face-plane "
     "test of every input point against every hull face plus exact vertex membership, own rigidity / containment / tightness / "
     "centring tests of boxes, spheres and cylinders in float64 with derived tolerances, own Welzl minimal ball with an "
     "optimality certificate, own dict-based adjacent-face projection for is_convex. Non-trivial: at least 5 distinct points "
@@ -807,6 +812,204 @@ def b_sequence(case, ctx):
 
 
 # ------------------------------------------------------------------------------------------------
+# every optional argument of the functions under test, drawn per case; the predicates are those of the default call
+
+
+QH_HULL_OPTIONS = ["default", "QbB Pp Qt", "Qt", "QbB Qt", "Pp Qt", "none", "obj:QbB,Pp,Qt", "obj:Qt", "obj:QbB,Pp,Qt,Qs"]
+
+
+def _hull_option(name):
+    if name == "default":
+        return {}
+    if name == "none":
+        return {"qhull_options": None}
+    if name.startswith("obj:"):
+        return {"qhull_options": tc.QhullOptions(**{k: True for k in name[4:].split(",")})}
+    return {"qhull_options": name}
+
+
+@body("C16.options")
+def b_options(case, ctx):
+    P, F = get_points(case)
+    ps = PS(P)
+    src = case.get("src", "points")
+    opt = case["opt"]
+    if not in_generated_domain(ps):
+        ctx.note(cls="opt:skipped_not_spanning")
+        return
+    sb = f"C16.options|{src}"
+    cls = ["opt:src=" + src, "opt:" + label_of(case)]
+    if ps.d == 2:
+        qo = opt.get("qhull2d")
+        T, ext = tb.oriented_bounds_2D(P.copy()) if qo is None else tb.oriented_bounds_2D(P.copy(), qhull_options=qo)
+        box_clauses(ps, T, ext, sb, f"oriented_bounds_2D(qhull_options={qo!r})")
+        hp = np.asarray(tc.hull_points(P.copy()) if qo is None else tc.hull_points(P.copy(), qhull_options=qo))
+        inp = {r.tobytes() for r in (P + 0.0)}
+        chk(all(r.tobytes() in inp for r in (hp + 0.0)), f"{sb}|hull_points(qhull_options={qo!r})|subset", "hull_points returned a point that is not an input point")
+        chk(float(np.abs(hp.min(axis=0) - ps.lo).max()) <= ps.tol and float(np.abs(hp.max(axis=0) - ps.hi).max()) <= ps.tol, f"{sb}|hull_points(qhull_options={qo!r})|bounds", "")
+        ctx.note(nontrivial=len(ps.U) >= 5, cls=cls + [f"opt:qhull2d={qo!r}"])
+        return
+    obj = (lambda: P.copy()) if src == "points" else (lambda: make_geom(case, P, F))
+    # ---- oriented_bounds(obj, angle_digits, ordered, normal) and apply_obb(**same)
+    kw = {}
+    tags = []
+    if opt.get("angle_digits") is not None:
+        kw["angle_digits"] = int(opt["angle_digits"])
+        tags.append("angle_digits")
+    if opt.get("ordered") is not None:
+        kw["ordered"] = bool(opt["ordered"])
+        tags.append("ordered")
+    nrm = None
+    if opt.get("normal") is not None:
+        nrm = np.asarray(opt["normal"], dtype=np.float64)
+        nrm = nrm / np.linalg.norm(nrm)
+        kw["normal"] = nrm.copy()
+        tags.append("normal")
+    who = "oriented_bounds(" + ",".join(tags) + ")"
+    T, ext = obb_guarded(lambda: tb.oriented_bounds(obj(), **kw), ps, f"{src}|{who}")
+    box_clauses(ps, T, ext, sb, who)
+    if nrm is not None:
+        # documented: "Override search for normal": the box is the 2-D box of the projection along `normal` times the
+        # height along it, so one axis of the box frame is +-normal (rows of the rotation are the box axes)
+        R = np.asarray(T)[:3, :3]
+        al = float(np.abs(R @ nrm).max())
+        chk(al >= 1 - 1e-9, f"{sb}|{who}|axis_along_normal", lambda: f"largest |row . normal| = {al}")
+    if src != "points":
+        g2 = make_geom(case, P, F)
+        Ta = obb_guarded(lambda: g2.apply_obb(**kw), ps, f"{src}|apply_obb({','.join(tags)})")
+        R, t = rigid_clause(Ta, 3, sb, "apply_obb(" + ",".join(tags) + ")")
+        sa = shortcut_allowance(R, ps)
+        moved = np.asarray(g2.vertices)
+        dev = float(np.abs(moved - (P @ R.T + t)).max())
+        chk(dev <= ps.tol + sa, f"{sb}|apply_obb({','.join(tags)})|applied", lambda: f"vertices after apply_obb differ from matrix*vertices by {dev:.3e}")
+        cen = float(np.abs(moved.min(axis=0) + moved.max(axis=0)).max()) / 2.0
+        chk(cen <= ps.tol + 2 * sa, f"{sb}|apply_obb({','.join(tags)})|centred", lambda: f"centre after apply_obb off by {cen:.3e}")
+        dif = float(np.abs(np.sort(moved.max(axis=0) - moved.min(axis=0)) - np.sort(np.asarray(ext))).max())
+        chk(dif <= 2 * (ps.tol + 2 * sa), f"{sb}|apply_obb({','.join(tags)})|extents", lambda: f"extents after apply_obb differ from oriented_bounds extents by {dif:.3e}")
+    # ---- minimum_cylinder(obj, sample_count, angle_tol)
+    ckw = {}
+    if opt.get("sample_count") is not None:
+        ckw["sample_count"] = int(opt["sample_count"])
+    if opt.get("angle_tol") is not None:
+        ckw["angle_tol"] = float(opt["angle_tol"])
+    if ckw:
+        cwho = "minimum_cylinder(" + ",".join(sorted(ckw)) + ")"
+        res = guarded(lambda: tb.minimum_cylinder(obj(), **ckw), "C16.options", f"{src}|{cwho}")
+        cylinder_clauses(ps, res["transform"], res["radius"], res["height"], sb, cwho)
+        tags += sorted(ckw)
+    # ---- convex_hull(obj, qhull_options, repair=True), hull_points(obj, qhull_options)
+    ho = opt.get("hull", "default")
+    if ho != "default":
+        hull = tc.convex_hull(obj(), **_hull_option(ho))
+        hull_clauses(ps, hull, src, sigbase=f"C16.options|convex_hull({ho})")
+        tags.append("hull_options")
+    hpo = opt.get("hull_points")
+    if hpo is not None:
+        hp = np.asarray(tc.hull_points(obj(), qhull_options=hpo))
+        inp = {r.tobytes() for r in (P + 0.0)}
+        chk(all(r.tobytes() in inp for r in (hp + 0.0)), f"{sb}|hull_points(qhull_options={hpo!r})|subset", "hull_points returned a point that is not an input point")
+        chk(float(np.abs(hp.min(axis=0) - ps.lo).max()) <= ps.tol and float(np.abs(hp.max(axis=0) - ps.hi).max()) <= ps.tol, f"{sb}|hull_points(qhull_options={hpo!r})|bounds", "")
+        tags.append("hull_points_options")
+    ctx.note(nontrivial=len(ps.U) >= 5 and bool(tags), cls=cls + ["opt:" + t for t in tags] + (["opt:normal:offset"] if nrm is not None and float(np.abs((ps.lo + ps.hi) / 2).max()) > 0.1 * ps.diam else []))
+
+
+# ------------------------------------------------------------------------------------------------
+# the same exactly representable point set handed over in another dtype / layout / container
+
+
+DT_REPRS = ["int64", "int32", "int16", "int8", "uint8", "uint16", "uint32", "uint64", "float32", "float64_readonly", "float64_fortran", "float64_strided", "list"]
+_DT_MAX = {"int64": 2**53, "int32": 2**31 - 1, "int16": 2**15 - 1, "int8": 127, "uint8": 255, "uint16": 2**16 - 1, "uint32": 2**32 - 1, "uint64": 2**53, "float32": 2**24, "float64_readonly": 2**53, "float64_fortran": 2**53, "float64_strided": 2**53, "list": 2**53}
+
+
+def dt_values(case):
+    """integer coordinates base*step + offset as int64 (|v| <= 2**53, exact in float64)"""
+    return np.asarray(case["base"], dtype=np.int64) * int(case["step"]) + np.asarray(case["offset"], dtype=np.int64)
+
+
+def dt_present(V, rep):
+    if rep == "list":
+        return [[int(v) for v in row] for row in V.tolist()]
+    if rep == "float64_readonly":
+        A = V.astype(np.float64)
+        A.flags.writeable = False
+        return A
+    if rep == "float64_fortran":
+        return np.asfortranarray(V.astype(np.float64))
+    if rep == "float64_strided":
+        big = np.zeros((len(V) * 2, V.shape[1] * 2), dtype=np.float64)
+        big[::2, ::2] = V
+        return big[::2, ::2]
+    return V.astype(rep)
+
+
+@body("C16.dtypes")
+def b_dtypes(case, ctx):
+    rep = case["rep"]
+    V = dt_values(case)
+    P = V.astype(np.float64)
+    ps = PS(P)
+    d = ps.d
+    A0 = dt_present(V, rep)
+    back = np.asarray(A0, dtype=np.float64)
+    if not (np.array_equal(back, P) and in_generated_domain(ps)):
+        ctx.note(cls="dt:skipped")
+        return
+    sb = f"C16.dtypes|{rep}|d={d}"
+    snap = None if rep == "list" else np.asarray(A0).copy()
+
+    def arg():
+        return dt_present(V, rep)
+
+    def untouched(A, who):
+        if isinstance(A, np.ndarray):
+            chk(np.array_equal(A, snap) and A.dtype == snap.dtype, f"{sb}|{who}|input_modified", "the caller's array was changed")
+
+    inp = {r.tobytes() for r in (P + 0.0)}
+    # hull_points
+    A = arg()
+    hp = np.asarray(tc.hull_points(A), dtype=np.float64)
+    untouched(A, "hull_points")
+    chk(all(r.tobytes() in inp for r in (hp + 0.0)), f"{sb}|hull_points|subset", "hull_points returned a point that is not an input point")
+    chk(float(np.abs(hp.min(axis=0) - ps.lo).max()) <= ps.tol and float(np.abs(hp.max(axis=0) - ps.hi).max()) <= ps.tol, f"{sb}|hull_points|bounds", "")
+    # oriented boxes
+    A = arg()
+    T, ext = obb_guarded(lambda: tb.oriented_bounds(A), ps, f"{rep}|oriented_bounds")
+    untouched(A, "oriented_bounds")
+    box_clauses(ps, T, ext, sb, "oriented_bounds")
+    if d == 2:
+        A = arg()
+        T, ext = tb.oriented_bounds_2D(A)
+        untouched(A, "oriented_bounds_2D")
+        box_clauses(ps, T, ext, sb, "oriented_bounds_2D")
+    # sphere: same predicates, and the same radius as for the float64 array
+    A = arg()
+    c, r = guarded(lambda: tn.minimum_nsphere(A), "C16.dtypes", f"{rep}|minimum_nsphere")
+    untouched(A, "minimum_nsphere")
+    sphere_clauses(ps, c, r, sb, "minimum_nsphere", False)
+    c64, r64 = guarded(lambda: tn.minimum_nsphere(P.copy()), "C16.dtypes", "float64|minimum_nsphere")
+    chk(abs(float(r) - float(r64)) <= 1e-9 * float(r64) + ps.tol, f"{sb}|minimum_nsphere|same_as_float64", lambda: f"radius {float(r)} vs {float(r64)} for the float64 array")
+    if d == 3:
+        A = arg()
+        hull = tc.convex_hull(A)
+        untouched(A, "convex_hull")
+        hull_clauses(ps, hull, rep, sigbase="C16.dtypes|convex_hull")
+        A = arg()
+        res = guarded(lambda: tb.minimum_cylinder(A), "C16.dtypes", f"{rep}|minimum_cylinder")
+        untouched(A, "minimum_cylinder")
+        cylinder_clauses(ps, res["transform"], res["radius"], res["height"], sb, "minimum_cylinder")
+        A = arg()
+        pc = trimesh.PointCloud(A)
+        b = np.asarray(pc.bounds)
+        chk(np.array_equal(b[0], ps.lo) and np.array_equal(b[1], ps.hi), f"{sb}|PointCloud.bounds|exact", lambda: f"{b.tolist()}")
+        _primitive_clauses(ps, obb_guarded(lambda: pc.bounding_box_oriented, ps, f"{rep}|bounding_box_oriented"), sb, "PointCloud.bounding_box_oriented")
+        _primitive_clauses(ps, guarded(lambda: pc.bounding_sphere, "C16.dtypes", f"{rep}|bounding_sphere"), sb, "PointCloud.bounding_sphere")
+        hull_clauses(ps, pc.convex_hull, rep, sigbase="C16.dtypes|PointCloud.convex_hull")
+        untouched(A, "PointCloud")
+    mag = float(np.abs(V).max()) / _DT_MAX[rep]
+    ctx.note(nontrivial=len(ps.U) >= 5, cls=[f"dt:{rep}", f"dt:d={d}", "dt:mag=" + ("full" if mag > 0.4 else "sqrt" if mag > 1e-6 and float(np.abs(V).max()) ** 2 > _DT_MAX[rep] else "small")])
+
+
+# ------------------------------------------------------------------------------------------------
 # strategies
 
 
@@ -844,6 +1047,66 @@ def seq_case(draw):
     # a permutation of all queries: every ordered pair (earlier, later) of queries is reached
     c["order"] = list(draw(st.permutations(list(range(len(SEQ_QUERIES))))))
     return c
+
+
+@st.composite
+def options_case(draw):
+    if draw(st.integers(0, 5)) == 0:
+        c = draw(pts_case(2))
+        c["opt"] = {"qhull2d": draw(st.sampled_from([None, "QbB", "", "Pp", "QbB Pp"]))}
+        return c
+    c = draw(any3(mesh_weight=1))
+    opt = {}
+    if draw(st.booleans()):
+        opt["angle_digits"] = draw(st.sampled_from([0, 1, 2, 3]))
+    if draw(st.booleans()):
+        opt["ordered"] = draw(st.booleans())
+    if draw(st.integers(0, 2)) > 0:
+        # axis directions, face diagonals and arbitrary directions (normalised in the body)
+        opt["normal"] = draw(
+            st.one_of(
+                st.sampled_from([[0.0, 0.0, 1.0], [1.0, 0.0, 0.0], [0.0, -1.0, 0.0], [1.0, 1.0, 0.0], [1.0, -2.0, 2.0]]),
+                st.lists(st.floats(-1, 1, allow_nan=False), min_size=3, max_size=3).filter(lambda v: sum(x * x for x in v) > 1e-2),
+            )
+        )
+    if draw(st.integers(0, 2)) == 0:
+        opt["sample_count"] = draw(st.sampled_from([2, 3, 4, 5, 6, 8]))
+        if draw(st.booleans()):
+            opt["angle_tol"] = draw(st.sampled_from([1e-1, 1e-2, 1e-3, 1e-4]))
+    if draw(st.integers(0, 2)) == 0:
+        opt["hull"] = draw(st.sampled_from(QH_HULL_OPTIONS))
+    if draw(st.integers(0, 3)) == 0:
+        opt["hull_points"] = draw(st.sampled_from(["QbB Pp", "Pp", "QbB", ""]))
+    c["opt"] = opt
+    return c
+
+
+@st.composite
+def dtypes_case(draw):
+    d = draw(st.sampled_from([2, 2, 3]))
+    rep = draw(st.sampled_from(DT_REPRS))
+    k = draw(st.sampled_from([2, 3, 4, 6, 9]))
+    n = draw(st.integers(d + 2, 30))
+    base = [[draw(st.integers(0, k - 1)) for _ in range(d)] for _ in range(n)]
+    T = _DT_MAX[rep]
+    signed = not rep.startswith("uint")
+    # coordinate magnitudes: small; around sqrt(max) (squares / products leave the dtype); the whole range
+    span = draw(st.sampled_from(["small", "sqrt", "sqrt", "half", "full"]))
+    if span == "small":
+        step = 1
+    elif span == "sqrt":
+        step = max(1, int(draw(st.sampled_from([0.7, 1.5, 4.0])) * (T**0.5)) // max(1, k - 1))
+    elif span == "half":
+        step = max(1, (T // 2) // max(1, k - 1))
+    else:
+        step = max(1, T // max(1, k - 1))
+    step = min(step, T // max(1, k - 1))
+    hi = step * (k - 1)
+    if signed and draw(st.booleans()):
+        off = [-(hi // 2)] * d if span == "full" else [draw(st.sampled_from([0, -(hi // 2), -min(hi, T - hi) if hi <= T else 0])) for _ in range(d)]
+    else:
+        off = [0] * d if span == "full" else [draw(st.sampled_from([0, (T - hi)])) for _ in range(d)]
+    return {"rep": rep, "base": base, "step": int(step), "offset": [int(o) for o in off]}
 
 
 @st.composite
@@ -892,6 +1155,16 @@ def s_sphere(ctx):
 @subcheck("C16", "cylinder", shards={"quick": 4, "thorough": 16})
 def s_cylinder(ctx):
     ctx.given("C16.cylinder", any3(mesh_weight=2), n={"quick": 500, "thorough": 16000})
+
+
+@subcheck("C16", "options", shards={"quick": 3, "thorough": 16})
+def s_options(ctx):
+    ctx.given("C16.options", options_case(), n={"quick": 900, "thorough": 30000})
+
+
+@subcheck("C16", "dtypes", shards={"quick": 3, "thorough": 16})
+def s_dtypes(ctx):
+    ctx.given("C16.dtypes", dtypes_case(), n={"quick": 900, "thorough": 30000})
 
 
 @subcheck("C16", "sequence", shards={"quick": 4, "thorough": 16})
@@ -965,6 +1238,18 @@ REQUIRED_CLASSES["C16"] = [
     "cyl:src=mesh",
     "cyl:src=cloud",
     "cyl:src=points",
+    "opt:normal:offset",
+    "opt:angle_digits",
+    "opt:ordered",
+    "opt:sample_count",
+    "opt:hull_options",
+    "dt:int32",
+    "dt:int16",
+    "dt:uint8",
+    "dt:float32",
+    "dt:list",
+    "dt:float64_readonly",
+    "dt:mag=full",
     "seq:src=mesh",
     "seq:src=cloud",
     "seq:first=bounding_sphere",
